@@ -119,9 +119,25 @@
         ELEMENT with EMPTY / ANY / mixed content / nested choice and sequence groups with occurrence
         indicators and white space anywhere the grammar allows it; comments and PIs), and the root read
         back as in (f).  The fuel of the specification (length of the input + 1) suffices.
-    Not proved: for documents WITH a document type declaration, the CONSTRAINT rung of [render_wf] (the
-    constraints on the tree read back under the declared entities and the defaulted attributes; it needs
-    the hypothesis of (g)); and, for all documents, [parse_render]
+    (l) round 2 -- [render_wf] FOR EVERY VALID ABSTRACT DOCUMENT, WITH OR WITHOUT A DOCUMENT TYPE DECLARATION, under
+        the one exclusion that (g) makes necessary ([render_wf_partial], Proofs/XmlWFSyntaxRenderDtd{Check,Wf}.v):
+          forall d c, valid d = true -> no_predefined_redeclared d = true -> wf (render d c) = true
+        where [no_predefined_redeclared d] says that no ENTITY declaration of the internal subset has the name
+        lt, gt, amp, apos or quot (decidable on d; true when there is no DOCTYPE).  The constraint rung with a
+        DOCTYPE: the environment of declared entities read back IS the canonical one (the oracle's pieces of an
+        entity value have the same replacement text), so is the fuel; [subset_ok] (character references in
+        entity values, default values against the entities declared so far); the constraints on the tree
+        (generalisation of (f) to any environment in which the predefined names have their standard meaning, any
+        sufficient fuel, references to declared entities in content and in attribute values); the namespace
+        constraints with DEFAULTED attributes (the defaults read back have the same normalized values, so the
+        declared prefixes, the reserved names and the expanded names coincide up to the permutation of the
+        specified attributes) and on the declarations.  With (j), ACCEPTANCE by the model of from_raw
+        ([rendered_is_accepted_partial]): when moreover there is no external subset (or standalone="yes") and
+        no entity value contains "]]>" (the two exclusions of (j) that valid documents can violate).
+        [doctype_valid_nonvacuous]: a document with entities referencing each other, an unparsed entity, a
+        notation, an ATTLIST with a default that binds a prefix used in the tree, mixed and children content
+        models satisfies all the hypotheses.
+    Not proved: for all documents, [parse_render]
     (the infoset the model builds from the rendering is [denote d]; named [parse_render_partial] in
     notes/wf_STATUS.md).  These are covered by checks/C01.py, which evaluates wf (render d c) and
     infoset_of_string (render d c) = denote d with the extracted functions on every generated case,
@@ -134,7 +150,8 @@ From XmlRs Require Model.ParseActions Model.Info Proofs.ParseInvElem Proofs.XmlW
   Proofs.XmlWFSyntaxRenderNode Proofs.XmlWFSyntaxRenderCheck Proofs.XmlWFSyntaxRenderDoc
   Proofs.DisplayLex Proofs.XmlWFSyntaxDtd Proofs.XmlWFSyntaxDtdDoc Proofs.XmlWFSyntaxConvDtd Proofs.XmlWFSyntaxConvDtdAtt
   Proofs.XmlWFSyntaxConvDtdElem Proofs.XmlWFSyntaxConvDtdDoc Proofs.XmlWFSyntaxConvDtdCheck
-  Proofs.XmlWFSyntaxRenderDtd Proofs.XmlWFSyntaxRenderDtdElem Proofs.XmlWFSyntaxRenderDtdDoc.
+  Proofs.XmlWFSyntaxRenderDtd Proofs.XmlWFSyntaxRenderDtdElem Proofs.XmlWFSyntaxRenderDtdDoc
+  Proofs.XmlWFSyntaxRenderDtdCheck Proofs.XmlWFSyntaxRenderDtdWf.
 Import ListNotations.
 
 (** every oracle is an admissible choice of surface forms *)
@@ -337,6 +354,61 @@ Proof.
   exists item, l'. split; [exact Hr|]. split; [exact Hl|]. exact (XmlWFSyntaxConvDtdDoc.q_parse_document_spec _ _ Hp).
 Qed.
 
+(** ** (l) render_wf and acceptance for every valid document outside the exclusion of (g) *)
+Definition no_predefined_redeclared (d : adoc) : bool :=
+  match a_doctype d with Some dt => XmlWFSyntaxRenderDtdWf.no_predef_decl (opt_list (ad_subset dt)) | None => true end.
+
+Theorem render_wf_partial : forall (d : adoc) (c : choices), valid d = true -> no_predefined_redeclared d = true ->
+  wf (render d c) = true.
+Proof.
+  intros d c Hv Hn. unfold no_predefined_redeclared in Hn. destruct (a_doctype d) as [dt|] eqn:Hdt.
+  - exact (proj1 (XmlWFSyntaxRenderDtdWf.render_wf_dtd d c dt Hv Hdt Hn)).
+  - exact (proj1 (XmlWFSyntaxRenderDoc.render_wf_nodoctype d c Hv Hdt)).
+Qed.
+
+(** the two exclusions of (j) that a valid abstract document can violate *)
+Definition accepted_profile (d : adoc) : bool :=
+  match a_doctype d with
+  | Some dt => XmlWFSyntaxRenderDtdWf.no_cdend (opt_list (ad_subset dt)) && e_must_declare (doc_env (to_xdoc d))
+  | None => true end.
+
+Theorem rendered_is_accepted_partial : forall (d : adoc) (c : choices), valid d = true -> no_predefined_redeclared d = true ->
+  accepted_profile d = true -> exists doc, Info.from_raw (render d c) = Info.OOk ([], doc).
+Proof.
+  intros d c Hv Hn Ha. unfold no_predefined_redeclared in Hn. unfold accepted_profile in Ha. destruct (a_doctype d) as [dt|] eqn:Hdt.
+  - apply andb_true_iff in Ha. destruct Ha as [H1 H2]. exact (XmlWFSyntaxRenderDtdWf.render_accepted_dtd d c dt Hv Hdt Hn H1 H2).
+  - exact (XmlWFSyntaxRenderDoc.render_accepted_nodoctype d c Hv Hdt).
+Qed.
+
+(* a document with: an XML declaration, a comment, a DOCTYPE whose internal subset declares the entity e
+   (characters v, greater-than, both quotes, then a reference to f), the entity f, an unparsed entity u with
+   notation n, the notation n (PUBLIC only), an ATTLIST for a (k with a default value that contains a less-than
+   sign and a reference to f, an enumeration m, xmlns:p fixed), ELEMENT a with mixed content, ELEMENT b with
+   nested groups and occurrence indicators, a comment and a PI; a PI after the DOCTYPE; the root a with an
+   attribute whose value has a less-than sign, an ampersand and a reference to e, and the children: a reference
+   to e, the element p:b whose prefix is bound by the defaulted attribute, character data with a less-than sign *)
+Definition ex_adoc_dtd : adoc :=
+  {| a_version := Some [49;46;48]%N; a_encoding := None; a_standalone := None;
+     a_misc1 := [AComment [99]%N];
+     a_doctype := Some {| ad_name := [97]%N; ad_pub := None; ad_sys := None;
+       ad_subset := Some [ADEntity [101]%N [IText [118;62;34;39]%N; IRef [102]%N];
+                          ADEntity [102]%N [IText [119]%N];
+                          ADExtEntity [117]%N None [115]%N (Some [110]%N);
+                          ADNotation [110]%N (Some [112]%N) None;
+                          ADAttlist [97]%N [([107]%N, ATCData, DfValue false [IText [100;60]%N; IRef [102]%N]);
+                                            ([109]%N, ATEnum [[120]%N; [121]%N], DfImplied);
+                                            ([120;109;108;110;115;58;112]%N, ATCData, DfValue true [IText [117]%N])];
+                          ADElement [97]%N (CSMixed [[98]%N]);
+                          ADElement [98]%N (CSChildren (CPSeq [CPName [99]%N OOne; CPChoice [CPName [100]%N OOne; CPName [101]%N OPlus] OStar] OOpt));
+                          ADComment [99]%N; ADPI [112;105]%N (Some [120]%N)] |};
+     a_misc2 := [API [113]%N None];
+     a_root := AElem [97]%N [([106]%N, [IText [60;38]%N; IRef [101]%N])] [ARef [101]%N; AElem [112;58;98]%N [] []; AText [116;60]%N];
+     a_misc3 := [] |}.
+
+Example doctype_valid_nonvacuous :
+  valid ex_adoc_dtd = true /\ no_predefined_redeclared ex_adoc_dtd = true /\ accepted_profile ex_adoc_dtd = true.
+Proof. split; [vm_compute; reflexivity|split; vm_compute; reflexivity]. Qed.
+
 Example rendered_nontrivial :
   comment_ok [32;97;45;98;32]%N = true /\ pi_ok [112;105]%N (Some [120;63;32;62]%N) = true.
 Proof. split; vm_compute; reflexivity. Qed.
@@ -367,3 +439,5 @@ Print Assumptions strict_grammar_refines_spec.
 Print Assumptions spec_grammar_is_accepted_partial.
 Print Assumptions wellformed_is_accepted_partial.
 Print Assumptions rendered_doctype_is_read_partial.
+Print Assumptions render_wf_partial.
+Print Assumptions rendered_is_accepted_partial.
